@@ -1,0 +1,152 @@
+//go:build verif
+
+// Contracts for the queue scan of nsqd.go (round 4, area A): (*NSQD).channels, resizePool, queueScanWorker, queueScanLoop
+// (C01 "keeps being redelivered ... timed out, deferred, in flight to a consumer that vanished"; C04 "timeouts and delays are
+// honoured ... boundedly late": the scan is the ONLY thing that moves expired in-flight and elapsed deferred messages back onto a
+// channel's queue). Checked by nsqvc. Comment-only file.
+
+package nsqd
+
+// ---- ghost records ---------------------------------------------------------------------------------
+// r4AChannelsCalls / r4ALastChannels : calls of NSQD.channels and the list returned by the most recent one.
+// r4AResizeCalls / r4AResizeNum / r4AResizeNSQD : calls of resizePool, `num` and receiver of the most recent one.
+// r4AIFScan* / r4ADefScan* : calls of Channel.processInFlightQueue / processDeferredQueue: count, channel, time argument and
+//                            answer of the most recent one (set by onreturn lines added to their contracts in zz_contracts_kchannel_verif.go).
+//@ ghost r4AChannelsCalls int
+//@ ghost r4ALastChannels []*Channel
+//@ ghostgroup r4AChannelsCalls, r4ALastChannels
+//@ ghost r4AResizeCalls int
+//@ ghost r4AResizeNum int
+//@ ghost r4AResizeNSQD *NSQD
+//@ ghostgroup r4AResizeCalls, r4AResizeNum, r4AResizeNSQD
+//@ ghost r4AIFScans int
+//@ ghost r4AIFScanChan *Channel
+//@ ghost r4AIFScanAt int64
+//@ ghost r4AIFScanDirty bool
+//@ ghostgroup r4AIFScans, r4AIFScanChan, r4AIFScanAt, r4AIFScanDirty
+//@ ghost r4ADefScans int
+//@ ghost r4ADefScanChan *Channel
+//@ ghost r4ADefScanAt int64
+//@ ghost r4ADefScanDirty bool
+//@ ghostgroup r4ADefScans, r4ADefScanChan, r4ADefScanAt, r4ADefScanDirty
+
+// c occurs in the list s
+//@ pred r4AInList(s []*Channel, c *Channel) := exists k int :: {s[k]} 0 <= k && k < len(s) && s[k] == c
+// every element of s[0..n) is a usable channel (flowChan: non-nil, nsqd and backend set - what the two scans require)
+//@ pred r4AListUsable(s []*Channel, n int) := forall k int :: {s[k]} 0 <= k && k < n ==> flowChan(s[k])
+
+// Work items travel over a Go channel: every *Channel sent into ANY channel is usable (obligation at queueScanLoop's send, assumed at
+// the worker's receive; Channel.nsqd and Channel.backend are immutable, so the fact survives the transit).
+//@ chaninv chan[*Channel](v) := flowChan(v)
+
+// ---- NSQD.channels ---------------------------------------------------------------------------------
+// PROPERTY TEXT (C01/C04): the scan must reach "every channel": channels() returns every channel of every topic.
+//  * loop 1 [visited-listed]       every channel of the topic being walked that the range has yielded is in the list;
+//  * loop 0 [last-topic-complete]  when the walk of a topic is over (its lock released), EVERY channel that was in that topic's map
+//                                  while its lock was held is in the list (checked on the back edge of the topic loop = at the exit of
+//                                  the channel loop: a `break` / a skipped channel fails here);
+//  * loop 1 [list-grows-only]    the list only grows while a topic is walked and agrees on its old positions with the list as it was
+//                                  when the walk of this topic began (the slice value of that moment, read in the current element
+//                                  store: the entry-STATE form `atloop(channels[k])` does not discharge - in-place append, notes);
+//  * [usable] every element is a usable channel (Topic.RWMutex invariant [values]).
+// NOT stated (engine): "for EVERY topic" as a postcondition over the heap - each topic's channel map is read under that topic's own
+// lock and is unknown again after its release, so the final state cannot name the N different lock-point states (notes, gap A2').
+//@ func (n *NSQD) channels() []*Channel
+//@   props C01 C04
+//@   nochan
+//@   requires n != nil
+//@   ensures[usable] r4AListUsable(result, len(result))
+//@   modifies n.topicMap, mapstore(map[string]*Topic), Topic.channelMap, mapstore(map[string]*Channel), r4AChannelsCalls, r4ALastChannels
+//@   onreturn r4AChannelsCalls := r4AChannelsCalls + 1
+//@   onreturn r4ALastChannels := result
+//@   loop 0
+//@     invariant[usable] r4AListUsable(channels, len(channels))
+//@     invariant[own-array] base(channels) == 0 || fresh(channels)
+//@     invariant[last-topic-complete] forall tn string :: {n.topicMap[tn]} visited(tn) ==>
+//@          (forall cn string :: {atunlock(t.channelMap[cn])} atunlock(has(t.channelMap, cn)) ==> r4AInList(channels, atunlock(t.channelMap[cn])))
+//@   loop 1
+//@     invariant[usable] r4AListUsable(channels, len(channels))
+//@     invariant[topic-usable] t != nil
+//@     invariant[own-array] base(channels) == 0 || fresh(channels)
+//@     invariant[visited-listed] forall cn string :: {t.channelMap[cn]} visited(cn) ==> r4AInList(channels, t.channelMap[cn])
+//@     invariant[list-grows-only.len] len(channels) >= atloop(len(channels))
+//@     invariant[list-grows-only] forall k int :: {channels[k]} 0 <= k && k < atloop(len(channels)) && k < len(channels) ==> channels[k] == atloop(channels)[k]
+//@     invariant[map-kept] t.channelMap == atlock(t.channelMap)
+
+// ---- resizePool --------------------------------------------------------------------------------------
+// 1 <= pool <= max(1, QueueScanWorkerPoolMax); a worker is stopped by exactly one message on closeCh; no work is handed out and no
+// answer is consumed here.
+//@ func (n *NSQD) resizePool(num int, workCh chan *Channel, responseCh chan bool, closeCh chan int)
+//@   props C01 C04
+//   CONFIGURATION ASSUMPTION: --queue-scan-worker-pool-max >= 1 (default 4). With 0 (or a negative value) the `else if` branch sets
+//   the ideal size to that value: every worker is stopped and the scan loop blocks for ever (notes, observation O1).
+//@   requires[config-pool-max] curOpts(n).QueueScanWorkerPoolMax >= 1
+//@   requires n != nil
+//@   ensures[pool-in-range] 1 <= n.poolSize && n.poolSize <= max(1, curOpts(n).QueueScanWorkerPoolMax)
+//@   ensures[one-stop-signal-per-worker-removed] sent(closeCh) - old(sent(closeCh)) == max(0, old(n.poolSize) - n.poolSize)
+//@   modifies n.poolSize, chanstore(int), r4AResizeCalls, r4AResizeNum, r4AResizeNSQD
+//@   onreturn r4AResizeCalls := r4AResizeCalls + 1
+//@   onreturn r4AResizeNum := num
+//@   onreturn r4AResizeNSQD := n
+//@   loop 0
+//@     invariant[ideal-in-range] 1 <= idealPoolSize && idealPoolSize <= max(1, curOpts(n).QueueScanWorkerPoolMax)
+//@     invariant[one-direction] (old(n.poolSize) >= idealPoolSize ==> n.poolSize >= idealPoolSize && n.poolSize + (sent(closeCh) - old(sent(closeCh))) == old(n.poolSize)) &&
+//@          (old(n.poolSize) <= idealPoolSize ==> n.poolSize <= idealPoolSize && n.poolSize >= old(n.poolSize) && sent(closeCh) == old(sent(closeCh)))
+
+// ---- queueScanWorker ---------------------------------------------------------------------------------
+// PROPERTY TEXT (C04 "an unanswered in-flight message is redelivered after its timeout", "a message requeued / published with delay d
+// ... is delivered soon after"; C01): for every work item the worker runs BOTH scans - processInFlightQueue AND processDeferredQueue -
+// on the channel it received, with the current time, and answers `dirty` iff one of them did work.
+//@ func (n *NSQD) queueScanWorker(workCh chan *Channel, responseCh chan bool, closeCh chan int)
+//@   props C01 C04
+//@   requires n != nil
+//@   modifies Channel.inFlightMessages, Channel.inFlightPQ, mapstore(map[MessageID]*Message), elems(*Message), Message.index, deref(inFlightPqueue), Channel.timeoutCount,
+//@        Channel.clients, mapstore(map[int64]Consumer), clientV2.InFlightCount, kConsTimedOut, kLastCons, kIFShifts, lastPopped,
+//@        Channel.deferredMessages, Channel.deferredPQ, mapstore(map[MessageID]*pqueue.Item), elems(*pqueue.Item), pqueue.Item.Index, deref(pqueue.PriorityQueue), kDefShifts, kDefPops,
+//@        chanPuts, chanPutOK, lastChanPutMsg, backendWrites, lastWriteMsg, lastWriteQueue, lastWriteErr, healthSets, lastHealthErr, lastHealthNSQD,
+//@        lastNow, r4AIFScans, r4ADefScans
+//@   loop 0
+//@     invariant[both-scans-per-item] r4AIFScans - old(r4AIFScans) == r4ADefScans - old(r4ADefScans) && r4AIFScans >= old(r4AIFScans)
+//@     invariant[same-channel-current-time] r4AIFScans > old(r4AIFScans) ==> r4AIFScanChan == r4ADefScanChan && r4AIFScanAt == r4ADefScanAt && r4AIFScanAt == unixNano(lastNow)
+//@     invariant[answers-dirty-iff-work-done] r4AIFScans > old(r4AIFScans) ==> lastsent(responseCh) == (r4AIFScanDirty || r4ADefScanDirty)
+
+// ---- queueScanLoop -----------------------------------------------------------------------------------
+// PROPERTY TEXT (C01 "keeps being redelivered ... wherever the message happens to sit (deferred, timed out, in flight to a consumer
+// that vanished)", C04 "redelivered after its timeout ... delivered soon after [the delay]"): every channel that exists must come
+// under the scan within a refresh interval, whatever happened to the set of channels in between. Stated:
+//  * [cache-is-latest-snapshot]  at every turn of the main loop the cached list IS the list returned by the most recent
+//                                NSQD.channels() call (never an older one, never a filtered one);
+//  * [pool-sized-to-cache]       every snapshot is followed by resizePool(len(snapshot)) on this NSQD, nothing else resizes;
+//    NOT stated: "a refresh tick always takes a snapshot" as a count (snapshots == 1 + refresh ticks received): the channel counters
+//    do not survive the call of resizePool, which sends on closeCh (notes, engine gap A6);
+//  * loop 1 [hands-out-cached] / [hands-out-the-pick] / [one-send-per-pick]  a round hands exactly `num` work items to the workers,
+//                                each of them the element of the cached list at the position UniqRands picked (pairwise different
+//                                positions: UniqRands [distinct]);
+//  * loop 3 [asked-num] / [awaits-one-answer-each]  ... and then takes exactly `num` answers;
+//  * loop 2 [scans-at-least-one] 1 <= num == min(QueueScanSelectionCount, len(cached list)).
+// CONFIGURATION ASSUMPTIONS (requires[config]): --queue-scan-selection-count >= 1 (0: nothing is ever scanned; negative: make(chan)
+// panics at start-up) and --queue-scan-worker-pool-max >= 1 (see resizePool). Defaults 20 and 4. Notes, observation O1.
+//@ func (n *NSQD) queueScanLoop()
+//@   props C01 C04
+//@   requires n != nil
+//@   requires[config] curOpts(n).QueueScanSelectionCount >= 1 && curOpts(n).QueueScanWorkerPoolMax >= 1
+//@   modifies n.topicMap, mapstore(map[string]*Topic), Topic.channelMap, mapstore(map[string]*Channel), r4AChannelsCalls, r4ALastChannels,
+//@        n.poolSize, chanstore(int), r4AResizeCalls, r4AResizeNum, r4AResizeNSQD, chanstore(*Channel), chanstore(bool), chanstore(time.Time)
+//@   loop 0
+//@     invariant[config] curOpts(n).QueueScanSelectionCount >= 1 && curOpts(n).QueueScanWorkerPoolMax >= 1
+//@     invariant[tickers] workTicker != nil && refreshTicker != nil
+//@     invariant[cached-usable] r4AListUsable(channels, len(channels))
+//@     invariant[cache-is-latest-snapshot] r4AChannelsCalls > old(r4AChannelsCalls) && channels == r4ALastChannels
+//@     invariant[pool-sized-to-cache] r4AResizeCalls - old(r4AResizeCalls) == r4AChannelsCalls - old(r4AChannelsCalls) && r4AResizeNum == len(channels) && r4AResizeNSQD == n
+//   loop 1 = the `loop:` label (re-scan while dirty), loop 2 = the range over the picked positions, loop 3 = the answer loop.
+//   (The label loop and the range loop inside it start at the same source position; the engine numbers such ties by header block
+//   index, which puts the label loop first.)
+//@   loop 1
+//@     invariant[scans-at-least-one] 1 <= num && num <= len(channels) && num == min(curOpts(n).QueueScanSelectionCount, len(channels))
+//@   loop 2
+//@     invariant[hands-out-cached] rangeindex >= 0 ==> r4AInList(channels, lastsent(workCh))
+//@     invariant[hands-out-the-pick] rangeindex >= 0 ==> 0 <= i && i < len(channels) && lastsent(workCh) == channels[i]
+//@     invariant[one-send-per-pick] sent(workCh) - atloop(sent(workCh)) == rangeindex + 1 && rangeindex < num
+//@   loop 3
+//@     invariant[asked-num] sent(workCh) - atloop(sent(workCh), 2) == num
+//@     invariant[awaits-one-answer-each] 0 <= i && i <= num && recvd(responseCh) - atloop(recvd(responseCh)) == i
